@@ -53,7 +53,7 @@ type c12Worker struct {
 func checkC12(c *Ctx) {
 	r, p := c.R, c.P
 	r.Explanation = "Decides necessary conditions of C12 with a BOUNDED, PATH-SENSITIVE ABSTRACT INTERPRETATION of the type-checked program's SSA form (kitcheck/c12x.go): nothing of dapr/kit is executed and no solver is used. The exported entry points of concurrency/runner.go and closer.go are interpreted path by path with every same-package callee virtually inlined — helpers, closures, method values and bound wrappers, func-typed fields with a single target, elements of literal tables, methods called through a package interface with a single implementation, deferred calls, sync.Once bodies, range-over-func bodies and the standard library's iterator constructors (slices.Values/All, maps.Keys …); goroutine bodies are interpreted separately, once per go statement and call path, with the values they receive resolved in the starter's state; the collection sizes (number of runners / closers) are fixed to each concrete n = 0..4 — the statement's quantifier — so loops over them are unrolled; the abstract state keeps exact small integers, phi choices, results of inlined helpers, local cells, small slices, the registered defers and the select case taken, and forks on every condition it cannot evaluate; identical states are merged and integers are clipped, so the interpretation is finite. The rules are predicates over the events of every abstract path. Unexported fields (also when grouped into a sub-struct held by value, pointer or embedding) are identified by role — type and use by the exported methods — not by name; a flag may be an atomic.Bool or an atomic integer used as 0 / one non-zero value; a flag, the lock or a channel may be handed to a helper by address or value (closeOnFirst(&flag, ch), withMutex(&mu, fn), an accessor returning the address) and is identified through the call path; a test-and-set or lock operation on an object that cannot be identified makes the rules that depend on it UNDECIDED, never a violation. SIZES BEYOND n = 4 ARE NOT DECIDED. " +
-		"(K0) both Run methods start goroutines only on paths on which their own atomic test-and-set of the running flag succeeded; RunnerManager.Add appends only on paths on which it read the flag unset and otherwise returns a non-nil error. " +
+		"(K0) both Run methods start goroutines only on paths on which their own atomic test-and-set of the running flag succeeded, and return nil only on such paths (a return without having taken the flag is a refusal, for every n including the empty manager); RunnerManager.Add appends only on paths on which it read the flag unset and otherwise returns a non-nil error. " +
 		"(K1) every runner goroutine calls its own element runners[i] exactly once with the context derived by context.WithCancel, sends exactly one result after it, and calls that context's cancel on every path after the runner returned and never before; for every n, on every path Run starts one goroutine per element and receives exactly n results before it returns. " +
 		"(K2) nil is sent / a result is not handed to errors.Join only when it is known nil or context.Canceled; a result that may be Canceled is never joined; Run returns that errors.Join (or nil when nothing was joined); every runner or closer the package registers itself (the runner that waits for Close, the fatal-shutdown closer, AddCloser's wrapper of a result-less closer) returns nil — or, for a runner, context.Canceled — on every path, so only the user's runners and closers contribute errors. " +
 		"(K3) RunnerCloserManager.Run: closer goroutines start only after the inner manager's result was obtained, one per element of the closers, each calling its element once and sending its own result once; exactly n closer results are received, every received result is stored into the slice given to errors.Join, the Join is stored in the error field Close returns and is returned; the closers list (and anything computed from it: its length, a snapshot, an element) decides a branch or selects a closer only if it was read when the list was frozen — with the inner manager's lock held, or after the closing flag was set inside or before a section of that lock — and the closing flag is set before a lock section that read the closers is left; every write of the closers holds the lock; AddCloser appends only after reading closing == false inside the same lock section; every value it stores is the registered function, its bound Close, or a wrapper calling it exactly once and returning its error. " +
@@ -78,7 +78,7 @@ func checkC12(c *Ctx) {
 		x.undecide("path exploration of %s exceeded its budget", FuncName(p, root))
 	}
 
-	r.Rule("C12.K0-once", "work starts only after the caller's own atomic test-and-set of running succeeded; Add is rejected once running", 3)
+	r.Rule("C12.K0-once", "work starts, and nil is returned, only after the caller's own atomic test-and-set of running succeeded; Add is rejected once running", 3)
 	r.Rule("C12.K1-worker", "runner goroutine: own runner once with the derived ctx, cancel after it returned on every path, exactly one result sent", 2)
 	r.Rule("C12.K1-count", "for n=0..4: one goroutine per runner, exactly n results received before Run returns", 1)
 	r.Rule("C12.K2-filter", "only nil/Canceled results are dropped, Canceled never reaches errors.Join, the Join is what is returned; the manager's own runners/closers contribute no error", 5)
